@@ -230,7 +230,12 @@ pub fn c07(tier: Tier, _seed: u64) -> Prop {
                 ctx.st.cases += 1;
                 ctx.st.nontrivial += 1;
                 let case = json!({"reject_through_run": crate::hv::e1::hex(&code)});
-                if let Some(msg) = v {
+                if ctx.panic_only {
+                    // borrowed by C15: the only question is whether run() unwinds
+                    if let Some(msg) = v.filter(|m| m.contains("panicked")) {
+                        ctx.custom_violation("c07run", msg, case, json!(null), json!({"result": o.result}));
+                    }
+                } else if let Some(msg) = v {
                     ctx.custom_violation("c07run", msg, case, json!(null), json!({"result": o.result}));
                 } else if o.result == "ok" {
                     ctx.custom_violation("c07run", format!("run() reported success although the last instruction {:02x?} is not implemented", code), case, json!(null), json!(null));
